@@ -1366,6 +1366,8 @@ int32_t jls_core_repair_fsr(struct jls_core_s * self, uint16_t signal_id) {
 
     // update level 0 (data)
     jls_core_fsr_sample_buffer_alloc(signal_info->track_fsr);
+    bool have_sample_id = false;
+    int64_t sample_id_expect = 0;
     while (offset) {
         if (jls_raw_chunk_seek(self->raw, offset) || jls_core_rd_chunk(self)) {
             break;
@@ -1376,6 +1378,16 @@ int32_t jls_core_repair_fsr(struct jls_core_s * self, uint16_t signal_id) {
             JLS_LOGW("repair_fsr signal_id %d: not a data chunk at %" PRIi64, (int) signal_id, offset);
             break;  // a broken link: do not copy an unknown chunk into the sample buffer
         }
+        int64_t chunk_sample_id = ((struct jls_fsr_data_s *) self->buf->start)->header.timestamp;
+        if (have_sample_id && (chunk_sample_id != sample_id_expect)) {
+            // blocks in between were omitted and their summary entries were never written: what follows
+            // cannot be placed, the signal ends here
+            JLS_LOGW("repair_fsr signal_id %d: sample_id %" PRIi64 " follows %" PRIi64 " - omitted blocks lost, stop",
+                     (int) signal_id, chunk_sample_id, sample_id_expect);
+            break;
+        }
+        have_sample_id = true;
+        sample_id_expect = chunk_sample_id + signal_info->signal_def.samples_per_data;
         memcpy(signal_info->track_fsr->data, self->buf->start, self->buf->length);
         JLS_LOGI("repair_fsr signal_id %d, level %d, offset %" PRIi64 " sample_id %" PRIi64 " to %" PRIi64 " data[0]=%f",
                  (int) signal_id, (int) level, offset,
